@@ -28,6 +28,8 @@ def run_case(c):
                                                "printed": int(Note(ast.literal_eval(repr(Note(n, o))))),
                                                "copy": int(Note(Note(n, o)))},
                       lambda d: {x: integer(y) for x, y in d.items()}))
+        for sp in (440, 432):
+            R.append(call("hz_spelling", dict(i, sp=sp), lambda: res12(Note(n, o).to_hertz(sp) / Note().from_int(int(Note(n, o))).to_hertz(sp) - 1) if int(Note(n, o)) >= 0 else 0))
         def cp():
             a = Note(n, o)
             before = full(a)
